@@ -98,6 +98,8 @@ type Flow struct {
 	Effect func(label string, call *ast.CallExpr, st Facts)
 	// RecvLabel names channel receives that count as events ("called:<label>").
 	RecvLabel func(x *ast.UnaryExpr) string
+	// AssignEffect lets a rule change facts at an assignment statement (after its calls were evaluated).
+	AssignEffect func(s *ast.AssignStmt, st Facts)
 	// AssignHook is called for every assignment to a plain variable (rhs nil for `var x T`).
 	AssignHook func(v *types.Var, rhs ast.Expr, st Facts)
 	// Inline: calls to module functions that are not labelled contribute the
@@ -380,6 +382,10 @@ func (m *Flow) transfer(node ast.Node, st Facts, rec bool) {
 		return
 	case *ast.AssignStmt:
 		m.calls(s, st, rec)
+		m.record(s, st, rec)
+		if m.AssignEffect != nil {
+			m.AssignEffect(s, st)
+		}
 		m.assign(s.Lhs, s.Rhs, st)
 		return
 	case *ast.ValueSpec:
@@ -519,6 +525,19 @@ func (m *Flow) calls(node ast.Node, st Facts, rec bool) {
 				}
 			}
 			return
+		case *ast.BinaryExpr:
+			if x.Op == token.LAND || x.Op == token.LOR {
+				// short-circuit: the right operand's calls are not executed on every path
+				visit(x.X)
+				before := st.clone()
+				visit(x.Y)
+				for k := range st {
+					if !before[k] {
+						delete(st, k)
+					}
+				}
+				return
+			}
 		case *ast.UnaryExpr:
 			if x.Op == token.ARROW {
 				visit(x.X)
